@@ -256,6 +256,48 @@ theorem copyOK_of_prev {data : ByteArray} {m cm curIx maxLength maxBackward prev
     CopyOK data m cm curIx maxLength maxBackward { o with len := len, distance := wsub curIx prev, score := score } :=
   ⟨Nat.pos_of_ne_zero h0, Nat.le_of_not_gt hmb, hlen, hx, prev, rfl, hag⟩
 
+theorem Adv.cacheAccept_inv {lbs i len backward : Nat} {data : ByteArray}
+    {mask cm curIx maxLength maxBackward : Nat} {s : Adv.LoopSt}
+    (hI : Adv.Inv data mask cm curIx maxLength maxBackward s)
+    (hco : ∀ score, CopyOK data mask cm curIx maxLength maxBackward
+      { s.out with len := len, distance := backward, score := score }) :
+    Adv.Inv data mask cm curIx maxLength maxBackward (Adv.cacheAccept lbs i len backward s) := by
+  unfold Adv.cacheAccept
+  dsimp only
+  split
+  · split
+    · split <;> split <;> first | exact hI | exact ⟨hI.1, fun _ => hco _⟩
+    · exact hI
+  · exact hI
+
+theorem Adv.bucketAccept_inv {lbs len backward : Nat} {data : ByteArray}
+    {mask cm curIx maxLength maxBackward : Nat} {s : Adv.LoopSt}
+    (hI : Adv.Inv data mask cm curIx maxLength maxBackward s)
+    (hco : ∀ score, CopyOK data mask cm curIx maxLength maxBackward
+      { s.out with len := len, distance := backward, score := score }) :
+    Adv.Inv data mask cm curIx maxLength maxBackward (Adv.bucketAccept lbs len backward s) := by
+  unfold Adv.bucketAccept
+  split
+  · dsimp only
+    split
+    · exact ⟨hI.1, fun _ => hco _⟩
+    · exact hI
+  · exact hI
+
+theorem H9.cacheAccept_inv {lbs i len backward : Nat} {data : ByteArray}
+    {mask cm curIx maxLength maxBackward : Nat} {s : Adv.LoopSt}
+    (hI : Adv.Inv data mask cm curIx maxLength maxBackward s)
+    (hco : ∀ score, CopyOK data mask cm curIx maxLength maxBackward
+      { s.out with len := len, distance := backward, score := score }) :
+    Adv.Inv data mask cm curIx maxLength maxBackward (H9.cacheAccept lbs i len backward s) := by
+  unfold H9.cacheAccept
+  split
+  · dsimp only
+    split
+    · exact ⟨hI.1, fun _ => hco _⟩
+    · exact hI
+  · exact hI
+
 theorem Adv.cacheStep_inv {lbs : Nat} {data : ByteArray} {mask curIx cm maxLength maxBackward : Nat}
     (hc : curIx < U64) {cache : List Int} (i : Nat) (s s' : Adv.LoopSt)
     (hI : Adv.Inv data mask cm curIx maxLength maxBackward s)
@@ -263,36 +305,31 @@ theorem Adv.cacheStep_inv {lbs : Nat} {data : ByteArray} {mask curIx cm maxLengt
     Adv.Inv data mask cm curIx maxLength maxBackward s' := by
   unfold Adv.cacheStep at h
   cases hci : cache[i]? with
-  | none => simp [hci] at h
+  | none => rw [hci] at h; cases h
   | some ci =>
-    simp only [hci] at h
+    rw [hci] at h
+    dsimp only at h
     split at h
     · injection h with h; subst h; exact hI
     · rename_i hcond
       cases hg : Adv.guard data mask cm (wsub curIx (i32ToUsize ci) &&& mask) s.bestLen with
-      | none => simp [hg] at h
+      | none => rw [hg] at h; cases h
       | some g =>
+        rw [hg] at h
         cases g with
-        | true => simp only [hg] at h; injection h with h; subst h; exact hI
+        | true => dsimp only at h; injection h with h; subst h; exact hI
         | false =>
-          simp only [hg] at h
+          dsimp only at h
           cases hf : findMatchLengthWithLimit data (wsub curIx (i32ToUsize ci) &&& mask) cm maxLength with
-          | none => simp [hf] at h
+          | none => rw [hf] at h; cases h
           | some len =>
-            simp only [hf] at h
+            rw [hf] at h
+            dsimp only at h
+            injection h with h; subst h
             obtain ⟨hlen, hag⟩ := findMatchLengthWithLimit_sound hf
-            have hco : ∀ score, CopyOK data mask cm curIx maxLength maxBackward
-                { s.out with len := len, distance := i32ToUsize ci, score := score } := fun score =>
-              copyOK_of_backward hc (i32ToUsize_lt ci) (by omega) (by omega) hlen hag s.out score hI.1
-            split at h
-            · split at h
-              · split at h <;>
-                  first
-                  | (injection h with h; subst h; first | exact ⟨hI.1, fun _ => hco _⟩ | exact hI)
-                  | (split at h <;>
-                      (injection h with h; subst h; first | exact ⟨hI.1, fun _ => hco _⟩ | exact hI))
-              · injection h with h; subst h; exact hI
-            · injection h with h; subst h; exact hI
+            exact Adv.cacheAccept_inv hI (fun score =>
+              copyOK_of_backward hc (i32ToUsize_lt ci) (Nat.lt_of_not_ge (fun hh => hcond (Or.inl hh)))
+                (Nat.le_of_not_gt (fun hh => hcond (Or.inr hh))) hlen hag s.out score hI.1)
 
 theorem Adv.bucketLoop_inv {lbs : Nat} {data : ByteArray} {mask curIx cm maxLength maxBackward blockMask : Nat}
     (bucket : Nat → Option Nat) : ∀ (cnt i : Nat) (s s' : Adv.LoopSt),
@@ -304,38 +341,38 @@ theorem Adv.bucketLoop_inv {lbs : Nat} {data : ByteArray} {mask curIx cm maxLeng
   | zero => intro i s s' hI h; simp only [Adv.bucketLoop, Option.some.injEq] at h; subst h; exact hI
   | succ cnt ih =>
     intro i s s' hI h
-    simp only [Adv.bucketLoop] at h
+    rw [Adv.bucketLoop] at h
+    dsimp only at h
     cases hb : bucket ((i - 1) &&& blockMask) with
-    | none => simp [hb] at h
+    | none => rw [hb] at h; cases h
     | some prev =>
-      simp only [hb] at h
+      rw [hb] at h
+      dsimp only at h
       split at h
       · exact ih _ _ _ hI h
       · rename_i h0
         cases hg : Adv.guard data mask cm (prev &&& mask) s.bestLen with
-        | none => simp [hg] at h
+        | none => rw [hg] at h; cases h
         | some g =>
+          rw [hg] at h
           cases g with
           | true =>
-            simp only [hg] at h
+            dsimp only at h
             split at h
             · injection h with h; subst h; exact hI
             · exact ih _ _ _ hI h
           | false =>
-            simp only [hg] at h
+            dsimp only at h
             split at h
             · injection h with h; subst h; exact hI
             · rename_i hmb
               cases hf : findMatchLengthWithLimitMin4 data (prev &&& mask) cm maxLength with
-              | none => simp [hf] at h
+              | none => rw [hf] at h; cases h
               | some len =>
-                simp only [hf] at h
+                rw [hf] at h
+                dsimp only at h
                 obtain ⟨hlen, hag⟩ := min4_sound hf
-                refine ih _ _ _ ?_ h
-                split
-                · split
-                  · exact ⟨hI.1, fun _ => copyOK_of_prev h0 hmb hlen hag s.out _ hI.1⟩
-                  · exact hI
-                · exact hI
+                exact ih _ _ _ (Adv.bucketAccept_inv hI (fun score =>
+                  copyOK_of_prev h0 hmb hlen hag s.out score hI.1)) h
 
 end BV.MatchFinder
